@@ -87,6 +87,10 @@ structure Cfg where
   groupInfoIds : Bool     -- groupInfo: empty id list is an error (guards the modulo in choseSubmitter)
   byte32Len    : Bool     -- byte32 length test
   crRand       : Bool     -- handleCR: non-positive seed replaced before rand.Int
+  bootReq      : Bool     -- getBootIps (d508404): a bootstrap URL that does not parse is answered with no addresses
+  secNil       : Bool     -- pdkg.GetShareSecurity: a group whose key generation has not finished has no share (`dks != nil`)
+  feCast       : Bool     -- onchain.firstEvent: `event.(*LogCommon)` comma-ok
+  evFlow       : Bool     -- onchain/eth_subscribe.go + onchainLoop: every subscribed event has a table entry and a case, payload fields are verbatim copies of the binding's (non-nil) fields, the wrapper carries `log: l` and the binding's Removed flag, only *OnchainError values are sent as errors
   -- sign/tbls, share
   sigIdxLen    : Bool     -- tbls.Recover: Index() error returned before Value() slices [2:]
   recoverDedup : Bool     -- RecoverCommit / tbls.Recover: shares with a repeated index are not interpolated twice
@@ -109,7 +113,7 @@ def Cfg.all : Cfg :=
     respsDkgNil := true, respsCast := true, findPubDkg := true, respNil := true, respVerOk := true, pubKeyLen := true, peerRespNil := true,
     encNil := true, nonceLen := true, secShareNil := true, shareVNil := true, findPubVss := true, aggNil := true,
     toBigLen := true, qloopOk := true, qloopCast := true, rsNil := true, rsMake := true, groupInfoIds := true,
-    byte32Len := true, crRand := true, sigIdxLen := true, recoverDedup := true, anyNil := true, ridCast := true,
+    byte32Len := true, crRand := true, bootReq := true, secNil := true, feCast := true, evFlow := true, sigIdxLen := true, recoverDedup := true, anyNil := true, ridCast := true,
     ridLen := true, readSize := true, mdNil := true, dispReplyNil := true, callRemoveNil := true, callIdMatch := true, listenName := true, listenCast := true, lookupName := true }
 
 /-! ### association lists (Go maps) -/
